@@ -327,7 +327,8 @@ theorem recvNewCid_len {fixed : Tree} {s : Remote} {seq rpt : Nat} {cid : Cid} (
   split
   · exact ⟨fun s' h => (by cases h), fun s' h => by cases h; exact hlen⟩
   rename_i hlim
-  have hlim : ¬ seq - rpt > s.limit := by simpa [hpre] using hlim
+  have hlim : ¬ seq - rpt > s.limit := by
+    have := hlim; simp [hpre] at this; omega
   split
   · exact ⟨fun s' h => (by cases h), fun s' h => by cases h⟩
   rename_i hoff
